@@ -55,19 +55,44 @@ const (
 func teTS(offMs int64) int64 { return (teBaseMillis + offMs) * int64(time.Millisecond) }
 
 type teSpan struct {
-	Trace int   `json:"trace"`
-	ID    int   `json:"id"`
-	Svc   int   `json:"svc"`
-	Dur   int64 `json:"dur"`
-	T     int64 `json:"t"` // ms offset
-	State int64 `json:"state"`
+	Wide  string `json:"wide,omitempty"` // explicit trace id (wide / boundary ops)
+	Big   int    `json:"big,omitempty"`  // body size in KiB
+	Trace int    `json:"trace"`
+	ID    int    `json:"id"`
+	Svc   int    `json:"svc"`
+	Dur   int64  `json:"dur"`
+	T     int64  `json:"t"` // ms offset
+	State int64  `json:"state"`
 }
 
 func teTraceID(n int) string { return fmt.Sprintf("trace-%03d", n) }
 func teSvc(n int) string     { return fmt.Sprintf("svc-%d", n) }
 
+func (s teSpan) traceID() string {
+	if s.Wide != "" {
+		return s.Wide
+	}
+	return teTraceID(s.Trace)
+}
+
 func (s teSpan) body() []byte {
-	return []byte(fmt.Sprintf("span-body-%d-of-%s", s.ID, teTraceID(s.Trace)))
+	b := []byte(fmt.Sprintf("span-body-%d-of-%s", s.ID, s.traceID()))
+	if s.Big > 0 {
+		big := make([]byte, s.Big<<10)
+		for i := range big {
+			big[i] = byte('a' + (i+s.ID)%23)
+		}
+		copy(big, b)
+		return big
+	}
+	return b
+}
+
+func teRenderBody(b []byte) string {
+	if len(b) > 64 {
+		return fmt.Sprintf("%s...(%d bytes)", b[:40], len(b))
+	}
+	return string(b)
 }
 
 func teSchema() *databasev1.Trace {
@@ -207,7 +232,7 @@ func (e *teEnv) write(batch []teSpan) {
 		e.msgID++
 		req := &tracev1.WriteRequest{
 			Tags: []*modelv1.TagValue{
-				teStrTV(teTraceID(s.Trace)), teIntTV(s.State), teStrTV(teSvc(s.Svc)), teIntTV(s.Dur), teStrTV(fmt.Sprintf("span-%d", s.ID)),
+				teStrTV(s.traceID()), teIntTV(s.State), teStrTV(teSvc(s.Svc)), teIntTV(s.Dur), teStrTV(fmt.Sprintf("span-%d", s.ID)),
 				{Value: &modelv1.TagValue_Timestamp{Timestamp: timestamppb.New(time.Unix(0, teTS(s.T)))}},
 			},
 			Span: s.body(), Version: e.msgID,
@@ -291,16 +316,40 @@ func (e *teEnv) mergeFiles(pick []int) (int, error) {
 	return merges, nil
 }
 
+// boundaryTrace returns the last trace id of the first primary-index granule of the part with the most
+// granules ("" if no part has two). Wide trace ids are w-%05d, so the predecessor is computable.
+func (e *teEnv) boundaryTrace() string {
+	best, id := 0, ""
+	for _, tb := range e.tablesCopy() {
+		s := tb.tst.currentSnapshot()
+		if s == nil {
+			continue
+		}
+		for _, pw := range s.parts {
+			if n := len(pw.p.primaryBlockMetadata); n >= 2 && n > best {
+				var k int
+				if _, err := fmt.Sscanf(pw.p.primaryBlockMetadata[1].traceID, "w-%05d", &k); err == nil && k > 0 {
+					best, id = n, fmt.Sprintf("w-%05d", k-1)
+				}
+			}
+		}
+		s.decRef()
+	}
+	return id
+}
+
 // ---- queries ----
 
 type teQuery struct {
-	Traces []int  `json:"traces,omitempty"` // by trace id (eq / in)
-	Svc    int    `json:"svc"`              // ordered query: entity service_id = svc-N
-	Order  string `json:"order,omitempty"`  // "" (by trace id) | duration
-	Desc   bool   `json:"desc,omitempty"`
-	Limit  int    `json:"limit"`
-	Offset int    `json:"offset"`
-	Vec    bool   `json:"vec,omitempty"` // answer through the engine's columnar pipeline
+	WideIDs  []string `json:"wide_ids,omitempty"` // explicit trace ids
+	Boundary bool     `json:"boundary,omitempty"` // ask for the boundary trace of the history (resolved at run time)
+	Traces   []int    `json:"traces,omitempty"`   // by trace id (eq / in)
+	Svc      int      `json:"svc"`                // ordered query: entity service_id = svc-N
+	Order    string   `json:"order,omitempty"`    // "" (by trace id) | duration
+	Desc     bool     `json:"desc,omitempty"`
+	Limit    int      `json:"limit"`
+	Offset   int      `json:"offset"`
+	Vec      bool     `json:"vec,omitempty"` // answer through the engine's columnar pipeline
 }
 
 func (q teQuery) request() *tracev1.QueryRequest {
@@ -317,6 +366,11 @@ func (q teQuery) request() *tracev1.QueryRequest {
 		}
 		req.OrderBy = &modelv1.QueryOrder{IndexRuleName: "duration", Sort: srt}
 		req.Criteria = &modelv1.Criteria{Exp: &modelv1.Criteria_Condition{Condition: &modelv1.Condition{Name: "service_id", Op: modelv1.Condition_BINARY_OP_EQ, Value: teStrTV(teSvc(q.Svc))}}}
+		return req
+	}
+	if len(q.WideIDs) > 0 {
+		req.Criteria = &modelv1.Criteria{Exp: &modelv1.Criteria_Condition{Condition: &modelv1.Condition{Name: "trace_id", Op: modelv1.Condition_BINARY_OP_IN,
+			Value: &modelv1.TagValue{Value: &modelv1.TagValue_StrArray{StrArray: &modelv1.StrArray{Value: q.WideIDs}}}}}}
 		return req
 	}
 	if len(q.Traces) == 1 {
@@ -406,7 +460,7 @@ func (e *teEnv) query(q teQuery) (out []teOutTrace, err error) {
 				}
 			}
 			sort.Strings(tags)
-			o.spans = append(o.spans, fmt.Sprintf("%s|%s|%s", r.SpanIDs[i], body, strings.Join(tags, ",")))
+			o.spans = append(o.spans, fmt.Sprintf("%s|%s|%s", r.SpanIDs[i], teRenderBody(body), strings.Join(tags, ",")))
 		}
 		sort.Strings(o.spans)
 		out = append(out, o)
@@ -415,16 +469,18 @@ func (e *teEnv) query(q teQuery) (out []teOutTrace, err error) {
 }
 
 func (s teSpan) rendered() string {
-	return fmt.Sprintf("span-%d|%s|duration=%d,service_id=%s,state=%d", s.ID, s.body(), s.Dur, teSvc(s.Svc), s.State)
+	return fmt.Sprintf("span-%d|%s|duration=%d,service_id=%s,state=%d", s.ID, teRenderBody(s.body()), s.Dur, teSvc(s.Svc), s.State)
 }
 
 // ---- case and check ----
 
 type teOp struct {
-	Kind  string   `json:"kind"` // write | flush | merge | query
-	Spans []teSpan `json:"spans,omitempty"`
-	Pick  []int    `json:"pick,omitempty"`
-	Query *teQuery `json:"query,omitempty"`
+	Kind   string   `json:"kind"` // write | wide | boundarybig | flush | merge | query
+	WideN  int      `json:"wide_n,omitempty"`
+	BigKiB int      `json:"big_kib,omitempty"`
+	Spans  []teSpan `json:"spans,omitempty"`
+	Pick   []int    `json:"pick,omitempty"`
+	Query  *teQuery `json:"query,omitempty"`
 }
 
 type teCase struct {
@@ -435,6 +491,7 @@ type teStats struct {
 	flushes, merges    int
 	byID, ordered      int
 	multiPart, vecUsed bool
+	boundary           bool
 	cut                bool
 }
 
@@ -445,15 +502,45 @@ func runTraceEngine(x *verifkit.Ctx, c teCase) (teStats, error) {
 		return st, err
 	}
 	defer e.close()
+	boundary := ""
 	written := map[string][]teSpan{} // trace id -> spans
 	batchesOf := map[string]map[int]bool{}
 	for i, op := range c.Ops {
 		what := fmt.Sprintf("op %d (%s)", i, op.Kind)
+		if op.Kind == "boundarybig" {
+			// a trace larger than one block placed on a primary-index granule boundary of a wide part: the last
+			// trace of the first granule of the widest part receives three spans of > 1 MiB (two blocks: a block is cut
+			// once it holds >= 2 MiB), the parts are merged
+			target := e.boundaryTrace()
+			if target == "" {
+				continue
+			}
+			boundary = target
+			op = teOp{Kind: "write"}
+			for k := 0; k < 3; k++ {
+				op.Spans = append(op.Spans, teSpan{Wide: target, ID: 9000000 + i*10 + k, Svc: 0, Dur: 1, T: int64(k), Big: c.Ops[i].BigKiB})
+			}
+			st.boundary = true
+		}
+		if op.Kind == "wide" {
+			op = teOp{Kind: "write"}
+			for k := 0; k < c.Ops[i].WideN; k++ {
+				op.Spans = append(op.Spans, teSpan{Wide: fmt.Sprintf("w-%05d", k), ID: 5000000 + k, Svc: 0, Dur: 1, T: int64(k % 100)})
+			}
+		}
+		if op.Query != nil && op.Query.Boundary {
+			if boundary == "" {
+				continue
+			}
+			q := *op.Query
+			q.WideIDs = []string{boundary}
+			op.Query = &q
+		}
 		switch op.Kind {
 		case "write":
 			e.write(op.Spans)
 			for _, s := range op.Spans {
-				id := teTraceID(s.Trace)
+				id := s.traceID()
 				written[id] = append(written[id], s)
 				if batchesOf[id] == nil {
 					batchesOf[id] = map[int]bool{}
@@ -513,6 +600,11 @@ func runTraceEngine(x *verifkit.Ctx, c teCase) (teStats, error) {
 				for _, t := range q.Traces {
 					if _, ok := written[teTraceID(t)]; ok {
 						want[teTraceID(t)] = true
+					}
+				}
+				for _, id := range q.WideIDs {
+					if _, ok := written[id]; ok {
+						want[id] = true
 					}
 				}
 				wantN := len(want)
@@ -613,6 +705,15 @@ func genTeCase(t *rapid.T, _ *verifkit.KnownSet) teCase {
 			c.Ops = append(c.Ops, teOp{Kind: "query", Query: genTeQuery(t)})
 		}
 	}
+	if rapid.IntRange(0, 14).Draw(t, "boundary") == 0 {
+		// everything flushed so far and the wide batch are merged into one part first, so that the granule
+		// boundary read from it is the one the final merge reproduces
+		c.Ops = append(c.Ops, teOp{Kind: "wide", WideN: rapid.IntRange(5500, 7000).Draw(t, "widen")}, teOp{Kind: "flush"},
+			teOp{Kind: "merge", Pick: []int{0, 1, 2, 3, 4, 5, 6, 7}},
+			teOp{Kind: "boundarybig", BigKiB: rapid.IntRange(1050, 1200).Draw(t, "bigkib")}, teOp{Kind: "flush"},
+			teOp{Kind: "merge", Pick: []int{0, 1, 2, 3, 4, 5, 6, 7}},
+			teOp{Kind: "query", Query: &teQuery{Boundary: true, Limit: 5, Vec: rapid.Bool().Draw(t, "bvec")}})
+	}
 	nq := rapid.IntRange(1, 4).Draw(t, "queries")
 	for i := 0; i < nq; i++ {
 		c.Ops = append(c.Ops, teOp{Kind: "query", Query: genTeQuery(t)})
@@ -659,6 +760,7 @@ func teLabels(x *verifkit.Ctx, st teStats) {
 	x.LabelIf(st.multiPart, "returned trace spread over several batches")
 	x.LabelIf(st.vecUsed, "columnar pipeline")
 	x.LabelIf(st.cut, "limit/offset cuts the result")
+	x.LabelIf(st.boundary, "large trace on a primary-index granule boundary")
 }
 
 func traceEngineSpec(pid, unit, extra string, nontrivial func(teStats) bool, minFrac map[string]float64) verifkit.Spec[teCase] {
